@@ -26,6 +26,7 @@ import (
 
 	"cvh/lib"
 
+	"github.com/onflow/cadence/ast"
 	"github.com/onflow/cadence/formatter"
 	"github.com/onflow/cadence/parser"
 	"github.com/onflow/cadence/parser/lexer"
@@ -124,6 +125,14 @@ func stripPos(v any) any {
 				continue
 			}
 			s := stripPos(e)
+			if k == "ParameterList" {
+				// `transaction() {}` and `transaction {}` differ only in an empty parameter list object
+				if pm, ok := s.(map[string]any); ok {
+					if ps, has := pm["Parameters"]; has && (ps == nil || reflect.DeepEqual(ps, []any{})) && len(pm) <= 2 {
+						s = nil
+					}
+				}
+			}
 			if s == nil {
 				if m, ok := e.(map[string]any); ok && isPos(m) {
 					continue
@@ -477,6 +486,57 @@ func lineDiff(a, b []byte) string {
 	return fmt.Sprintf("first difference at line %d: pass1 %q / pass2 %q (previous line %q)", i+1, get(la, i), get(lb, i), get(la, i-1))
 }
 
+// lineCommentTexts returns the `//` comments of a text (crude: first `//` of a line not preceded by a quote).
+func lineCommentTexts(src string) []string {
+	var out []string
+	for _, ln := range strings.Split(src, "\n") {
+		if i := strings.Index(ln, "//"); i >= 0 && !strings.Contains(ln[:i], "\"") {
+			out = append(out, strings.TrimRight(ln[i:], " \t"))
+		}
+	}
+	return out
+}
+
+// swallowed reports the root cause "a line comment was rendered in the middle of a line, so the code after it
+// became part of the comment": some `//` comment of the output extends a `//` comment of the input.
+func swallowed(src, out string) bool {
+	in := map[string]bool{}
+	for _, c := range lineCommentTexts(src) {
+		in[c] = true
+	}
+	for _, c := range lineCommentTexts(out) {
+		if in[c] {
+			continue
+		}
+		for k := range in {
+			if len(c) > len(k) && strings.HasPrefix(c, k) {
+				return true
+			}
+		}
+	}
+	return false
+}
+
+// streamKey: the clean stream keeps the precise key; the wild stream buckets by root cause / violated clause.
+func streamKey(stream, key, src, out string) string {
+	if key == "comment-text-changed:blank-lines-inside-block-comment" {
+		return key // same narrow defect in both streams
+	}
+	if stream == "clean" {
+		return "clean:" + key
+	}
+	if strings.HasPrefix(key, "panic:") {
+		return "wild:" + key
+	}
+	if swallowed(src, out) {
+		return "wild:line-comment-swallows-code"
+	}
+	if i := strings.Index(key, ":"); i > 0 {
+		key = key[:i]
+	}
+	return "wild:" + key
+}
+
 // ---------------------------------------------------------------- generation: decorated full-grammar programs
 
 // outsideStrings marks the byte offsets that are not inside a string literal (incl. templates).
@@ -669,6 +729,158 @@ func indentAt(b []byte, off int) string {
 	return string(b[s:e])
 }
 
+// cleanDecorate puts comments only at the CONVENTIONAL positions: on their own line(s) directly before a
+// declaration / member / statement that starts its line, at the end of a line that a declaration or statement
+// ends, as a header before the program and as a footer after it; plus extra blank lines before own-line comments.
+func cleanDecorate(r *lib.Rng, src string, nComments int, kinds map[string]int) string {
+	b := []byte(src)
+	prog, err := parser.ParseProgram(nil, b, parser.Config{})
+	if err != nil {
+		return src
+	}
+	okAt := outsideStrings(b)
+	type point struct {
+		off int
+		eol bool
+	}
+	var points []point
+	seen := map[point]bool{}
+	add := func(p point) {
+		if !seen[p] {
+			seen[p] = true
+			points = append(points, p)
+		}
+	}
+	// positions where the unchanged formatter is known to misplace an own-line comment (known findings, exercised
+	// from corpus/C39): before the first member of an attachment declaration (rendered before the `{`), before the
+	// first statement of a switch case (rendered before the `:`)
+	avoid := map[int]bool{}
+	ast.Inspect(prog, func(el ast.Element) bool {
+		switch x := el.(type) {
+		case *ast.AttachmentDeclaration:
+			if x.Members != nil {
+				if ds := x.Members.Declarations(); len(ds) > 0 {
+					avoid[ds[0].StartPosition().Offset] = true
+				}
+			}
+		case *ast.TransactionDeclaration:
+			// a comment before the first field / block of a transaction is re-attached differently on the second
+			// pass when the transaction has parameters (known finding)
+			first := -1
+			x.Walk(func(child ast.Element) {
+				if child == nil {
+					return
+				}
+				if x.ParameterList != nil && child.StartPosition().Offset <= x.ParameterList.EndPosition(nil).Offset {
+					return
+				}
+				if o := child.StartPosition().Offset; first < 0 || o < first {
+					first = o
+				}
+			})
+			if first >= 0 {
+				avoid[first] = true
+			}
+		case *ast.SwitchStatement:
+			for _, c := range x.Cases {
+				if len(c.Statements) > 0 {
+					avoid[c.Statements[0].StartPosition().Offset] = true
+				}
+			}
+		}
+		return el != nil
+	})
+	ast.Inspect(prog, func(el ast.Element) bool {
+		if el == nil {
+			return false
+		}
+		_, isDecl := el.(ast.Declaration)
+		_, isStmt := el.(ast.Statement)
+		if !isDecl && !isStmt {
+			return true
+		}
+		if _, isProg := el.(*ast.Program); isProg {
+			return true
+		}
+		s, e := el.StartPosition().Offset, el.EndPosition(nil).Offset+1
+		if s < 0 || e > len(b) || s >= e || !okAt[s] || !okAt[e] {
+			return true
+		}
+		if strings.TrimSpace(string(b[lineStart(b, s):s])) == "" && !avoid[s] {
+			add(point{s, false})
+		}
+		j := e
+		for j < len(b) && (b[j] == ' ' || b[j] == '\t' || b[j] == ';') {
+			j++
+		}
+		if j == len(b) || b[j] == '\n' {
+			add(point{j, true})
+		}
+		return true
+	})
+	if len(points) == 0 {
+		return src
+	}
+	cg := &commentGen{r: r}
+	simple := func() (string, string) {
+		for {
+			text, _, kind := cg.next()
+			switch kind {
+			case "line", "doc-line", "block", "doc-block", "line-trailing-space", "nested-block":
+				return text, kind
+			}
+		}
+	}
+	type ins struct {
+		off  int
+		text string
+	}
+	var inserts []ins
+	usedEol := map[int]bool{}
+	for k := 0; k < nComments; k++ {
+		pt := points[r.Intn(len(points))]
+		text, kind := simple()
+		if pt.eol {
+			if usedEol[pt.off] {
+				continue
+			}
+			usedEol[pt.off] = true
+			kinds["clean:end-of-line:"+kind]++
+			inserts = append(inserts, ins{pt.off, " " + text})
+		} else {
+			kinds["clean:own-line-before:"+kind]++
+			ind := indentAt(b, pt.off)
+			pre := ""
+			if r.Chance(1, 4) {
+				pre = "\n" + ind
+				kinds["clean:blank-line-before-comment"]++
+			}
+			inserts = append(inserts, ins{pt.off, pre + text + "\n" + ind})
+		}
+	}
+	sort.SliceStable(inserts, func(i, j int) bool { return inserts[i].off < inserts[j].off })
+	var sb strings.Builder
+	if r.Chance(1, 3) {
+		text, kind := simple()
+		kinds["clean:header:"+kind]++
+		sb.WriteString(text + "\n\n")
+	}
+	last := 0
+	for _, in := range inserts {
+		sb.Write(b[last:in.off])
+		sb.WriteString(in.text)
+		last = in.off
+	}
+	sb.Write(b[last:])
+	if r.Chance(1, 3) {
+		text, kind := simple()
+		kinds["clean:footer:"+kind]++
+		out := strings.TrimRight(sb.String(), "\n") + "\n\n" + text + "\n"
+		return out
+	}
+	return sb.String()
+}
+
 // ---------------------------------------------------------------- skeleton programs (compared with the Coq model)
 
 // A skeleton line: blank, comment-only, or a single-line declaration with an optional end-of-line comment.
@@ -696,12 +908,12 @@ func skeletonDecls() []skDecl {
 		{"access(all) let d = true", false, 0, ""},
 		{"import Crypto", true, 0, "Crypto"},
 		{"import Alpha", true, 0, "Alpha"},
-		{"import B from 0x02", true, 1, "0000000000000002|B"},
-		{"import A from 0x02", true, 1, "0000000000000002|A"},
-		{"import C from 0x01", true, 1, "0000000000000001|C"},
+		{"import B from 0x2", true, 1, "0000000000000002|B"},
+		{"import A from 0x2", true, 1, "0000000000000002|A"},
+		{"import C from 0x1", true, 1, "0000000000000001|C"},
 		{"import Z from \"z.cdc\"", true, 2, "z.cdc"},
 		{"import Y from \"a.cdc\"", true, 2, "a.cdc"},
-		{"import B from 0x02", true, 1, "0000000000000002|B"}, // duplicate import (stability)
+		{"import B from 0x2", true, 1, "0000000000000002|B"}, // duplicate import (stability)
 	}
 }
 
@@ -799,8 +1011,16 @@ func main() {
 	opts := allOptions()
 	distinct := map[string]bool{}
 	kinds := map[string]int{}
+	var dump *os.File
+	if p := os.Getenv("C39_DUMP"); p != "" {
+		dump, _ = os.Create(p)
+	}
 	report := func(src string, o Opt, cls string, out []byte, issues []Issue, origin string) {
 		for _, is := range issues {
+			if dump != nil {
+				b, _ := json.Marshal(map[string]any{"key": is.Key, "what": is.What, "source": src, "options": o, "formatted": string(out), "origin": origin})
+				dump.Write(append(b, '\n'))
+			}
 			sum.Count("issue " + origin + " " + is.Key + fmt.Sprintf(" [skip_verify=%v]", o.SkipVerify))
 			sum.Fail(is.Key, is.What, map[string]any{"source": src, "options": o, "formatted": string(out), "origin": origin, "seed": *flagSeed})
 		}
@@ -826,38 +1046,51 @@ func main() {
 		}
 	}
 
-	// ---- 1. decorated full-grammar programs
+	// ---- 1. full-grammar programs: (a) CLEAN stream - comments at conventional positions only: every failure
+	//         counts; (b) WILD stream - comments at arbitrary token boundaries: failures are bucketed by root
+	//         cause (the formatter has known defects there, see known_findings/C39.json)
 	g := lib.NewProgGen(r)
 	g.Comments = false
+	g.Clean = true // avoid the constructs whose plain print/parse round trip already fails (C38's findings)
 	for i := 0; i < nFull; i++ {
 		base := g.Program(1+r.Intn(5), 2+r.Intn(2))
 		if _, err := parser.ParseProgram(nil, []byte(base), parser.Config{}); err != nil {
 			sum.Count("generated program rejected by the parser (skipped)")
 			continue
 		}
-		src := base
-		for try := 0; try < 4; try++ {
-			cand := decorate(r, base, 1+r.Intn(8>>try+1), kinds)
-			if _, err := parser.ParseProgram(nil, []byte(cand), parser.Config{}); err == nil {
-				src = cand
-				break
+		for _, stream := range []string{"clean", "wild"} {
+			src := base
+			for try := 0; try < 4; try++ {
+				var cand string
+				if stream == "clean" {
+					cand = cleanDecorate(r, base, 1+r.Intn(8>>try+1), kinds)
+				} else {
+					cand = decorate(r, base, 1+r.Intn(8>>try+1), kinds)
+				}
+				if _, err := parser.ParseProgram(nil, []byte(cand), parser.Config{}); err == nil {
+					src = cand
+					break
+				}
+				sum.Count(stream + ": decoration broke the parse (retried)")
 			}
-			sum.Count("decoration broke the parse (retried)")
-		}
-		for j := 0; j < 2; j++ {
-			o := opts[(i*5+j*37+int(*flagSeed)*11)%len(opts)]
-			if j == 0 && i%3 == 0 {
-				o = defaultOpt()
-			}
-			cls, out, issues := checkCase([]byte(src), o)
-			sum.Evaluations++
-			sum.Count("full " + cls)
-			if cls == "formatted" {
-				distinct[src] = true
-			}
-			report(src, o, cls, out, issues, "full-grammar")
-			if i < 2 && j == 0 {
-				sum.Sample(map[string]any{"source": src, "options": o, "class": cls, "formatted": string(out)})
+			for j := 0; j < 2; j++ {
+				o := opts[(i*5+j*37+int(*flagSeed)*11)%len(opts)]
+				if j == 0 && i%3 == 0 {
+					o = defaultOpt()
+				}
+				cls, out, issues := checkCase([]byte(src), o)
+				sum.Evaluations++
+				sum.Count(stream + " " + cls)
+				if cls == "formatted" {
+					distinct[src] = true
+				}
+				for k := range issues {
+					issues[k].Key = streamKey(stream, issues[k].Key, src, string(out))
+				}
+				report(src, o, cls, out, issues, stream)
+				if i < 2 && j == 0 {
+					sum.Sample(map[string]any{"stream": stream, "source": src, "options": o, "class": cls, "formatted": string(out)})
+				}
 			}
 		}
 	}
@@ -946,13 +1179,17 @@ func skCaseTerm(lines []SkLine, decls []skDecl, o Opt, out string) string {
 			obs = append(obs, fmt.Sprintf("(LCmt %d)", cmtCode(id, blk)))
 		default:
 			code, cm := t, ""
-			if i := strings.Index(t, "//"); i >= 0 && !strings.Contains(t[:i], "\"") {
+			// the skeleton's comments are `// k<n>` / `/* k<n> */`; no declaration text contains these markers
+			if i := strings.Index(t, "// k"); i >= 0 {
 				code, cm = strings.TrimRight(t[:i], " "), t[i:]
-			} else if i := strings.Index(t, "/*"); i >= 0 {
+			} else if i := strings.Index(t, "/* k"); i >= 0 {
 				code, cm = strings.TrimRight(t[:i], " "), t[i:]
 			}
+			// with StripSemicolons=false a variable declaration's `;` is printed twice (the declaration and its
+			// value expression end at the same offset and both are marked by trivia.ScanSemicolons); the AST and
+			// the fixed point are unaffected, so the skeleton comparison only records "has a semicolon"
 			semi := strings.HasSuffix(code, ";")
-			code = strings.TrimSuffix(code, ";")
+			code = strings.TrimRight(code, ";")
 			d := -1
 			for k, dd := range decls {
 				if dd.text == code {
